@@ -43,6 +43,18 @@ def _cases_core(rng, tier):
         for cut in sorted({0, len(m), len(cat), max(0, len(m) - 3), min(len(cat), len(m) + 2)}):
             pairs.append((cat[:cut], cat[cut:]))
         pairs.append((p, m))
+    # byte lengths around the SHA-512 padding boundary (111/112), the HMAC block size (128: a longer key is hashed
+    # first) and well beyond: mnemonic = HMAC key, salt = "mnemonic" + passphrase
+    lens = [111, 112, 127, 128, 129, 256, 1000] if tier == "thorough" else [rng.choice([111, 112]), 128, 129, rng.choice([127, 256, 1000])]
+    for ln in lens:
+        unit = rng.choice(["a", "é", "語"])
+        body = (unit * ln)
+        cut = ln // len(unit.encode())
+        while len(unicodedata.normalize("NFKD", body[:cut]).encode()) > ln:
+            cut -= 1
+        txt = body[:cut] + "x" * (ln - len(unicodedata.normalize("NFKD", body[:cut]).encode()))
+        pairs.append((txt, "TREZOR"))
+        pairs.append((MN[0], txt[: max(0, len(txt) - 8)]))       # salt "mnemonic"+p has byte length ≈ ln
     for m, p in pairs:
         yield "seed %s %s %s %s" % (sx(m), sx(nf(m)), sx(p), sx(nf(p))), "seed"
         t = rng.choice("01")
